@@ -167,6 +167,9 @@ def safe_callable_names(root: ast.Module) -> Collection[str]:
             nonreturn_children = []
             for child in node.body:
                 if core.is_blocking(child):
+                    if not isinstance(child, ast.Return):
+                        # It is run as well, and whatever it does before it returns or raises
+                        nonreturn_children.append(child)
                     break
 
                 nonreturn_children.append(child)
